@@ -156,6 +156,9 @@ func cmdCheck(args []string) int {
 		}
 		return 2
 	}
+	for _, kt := range eng.cs.KeyTypes {
+		specialLeaf[kt] = "K_" + sanitize(kt)
+	}
 	for _, u := range eng.cs.Unopaque {
 		if hasProp(u.Props, *prop) {
 			delete(specialLeaf, u.Type)
